@@ -151,7 +151,11 @@ class C05(PropBase):
         from y0.algorithm.transport import get_nodes_to_transport, identify_target_outcomes
         from y0.dsl import Variable
         g, X, Y, doms = case["g"], case["X"], case["Y"], case["domains"]
-        gr = GG.to_y0(g)
+        def warm(partial, present):
+            ys, xs = {GG.V(v) for v in Y} & present, {GG.V(v) for v in X} & present
+            if ys and xs:
+                identify_target_outcomes(partial, target_outcomes=ys, target_interventions=xs, surrogate_outcomes={}, surrogate_interventions={})
+        gr = GG.to_y0(g, warm=warm)
         before = GG.snapshot(gr)
         pops = [Variable(f"pi{i + 1}") for i in range(len(doms))]
         so = {p: {GG.V(v) for v in d["W"]} for p, d in zip(pops, doms)}
